@@ -134,6 +134,9 @@ func PFunc(f func() int) int { return -1 }
 //go:noinline
 func PSlice(s []int) int { return -1 }
 
+//go:noinline
+func PMap(m map[string]int) int { return -1 }
+
 type exp int
 
 const (
@@ -539,6 +542,11 @@ func TestC09(t *testing.T) {
 		{"error", func(b *mocker.Builder) { b.Func(PErr).Return(0).When(nil).Return(1) }, func() int { return PErr(nil) }, func() int { return PErr(&MyErr{1}) }},
 		{"func", func(b *mocker.Builder) { b.Func(PFunc).Return(0).When(nil).Return(1) }, func() int { return PFunc(nil) }, func() int { return PFunc(theFunc) }},
 		{"[]int", func(b *mocker.Builder) { b.Func(PSlice).Return(0).When(nil).Return(1) }, func() int { return PSlice(nil) }, func() int { return PSlice([]int{1}) }},
+		// nil is the typed zero value, not "anything empty": an empty non-nil slice or map is another value (and vice versa)
+		{"[]int/empty-argument", func(b *mocker.Builder) { b.Func(PSlice).Return(0).When(nil).Return(1) }, func() int { return PSlice(nil) }, func() int { return PSlice([]int{}) }},
+		{"[]int/empty-condition", func(b *mocker.Builder) { b.Func(PSlice).Return(0).When([]int{}).Return(1) }, func() int { return PSlice([]int{}) }, func() int { return PSlice(nil) }},
+		{"map/empty-argument", func(b *mocker.Builder) { b.Func(PMap).Return(0).When(nil).Return(1) }, func() int { return PMap(nil) }, func() int { return PMap(map[string]int{}) }},
+		{"map/empty-condition", func(b *mocker.Builder) { b.Func(PMap).Return(0).When(map[string]int{}).Return(1) }, func() int { return PMap(map[string]int{}) }, func() int { return PMap(nil) }},
 	} {
 		b := mocker.Create()
 		var cerr interface{}
@@ -562,7 +570,7 @@ func TestC09(t *testing.T) {
 				a, c = p.nilC(), p.nonC()
 			}()
 			if perr != nil || a != 1 || c != 0 {
-				rep.Violate(key, fmt.Sprintf("When(nil) for %s parameter: nil arg -> %d (want 1), non-nil arg -> %d (want 0), panic %v", p.name, a, c, perr), nil)
+				rep.Violate(key, fmt.Sprintf("nil / empty When argument for %s parameter: the equal argument -> %d (want 1), the other one -> %d (want 0), panic %v", p.name, a, c, perr), nil)
 			}
 		}
 		b.Reset()
